@@ -49,6 +49,10 @@ def run_all(chk, fsets, tier):
             rules_bits.run_reader_cleanliness(chk, F, fs, "P2.clean", groups=("copy",))
             chk.rule("P2.layout", floor=10 if i == 0 else 0, doc="bit-range domain: every OR that builds the writer's buffer or a delivered word in copy_from combines disjoint ranges (the undefined part of the buffer is shifted out, never rotated in)")
             rules_bits.run_writer_layout(chk, F, fs, "P2.layout", names=("copy_from",), groups=("copy",))
+            import rules_seq
+            chk.rule("P5.content", floor=18 if i == 0 else 0,
+                     doc="bit-sequence domain: copy_to hands the destination exactly the next bits of the source (buffered bits first, then every fetched word whole in the iteration that fetched it, then the head of the last word) and keeps exactly the rest of the last word; copy_from delivers P ++ r_1 as first word, every further word is exactly the W bits read in the same iteration, and keeps exactly the last value read; no fetched word / value read is dropped or used twice")
+            rules_seq.run_parallel(chk, F, fs, [("copy_to", "P5.content", "copy_to"), ("copy_from", "P5.content", "copy_from")])
         # P4: which impls override the provided methods under this feature set
         ov = set()
         for b in F.bodies:
